@@ -175,7 +175,8 @@ def cut(ctx, roots, nodes, prefix="cut"):
     for i, n in enumerate(nodes):
         if n.uid in mapping:
             continue
-        name = f"{prefix}{i}_{n.uid}"
+        ctx.ncut = getattr(ctx, "ncut", 0) + 1
+        name = f"{prefix}{i}_{n.uid}_{ctx.ncut}"
         v = ctx.var(name, n.dt, n.cv)
         mapping[n.uid] = v
         back[name] = n
@@ -229,6 +230,7 @@ def unpack_lemma(ctx, roots, bits, res=None, clause="unpack(pack(code))==code"):
     Returns {U.uid: L} (to be used with subst), or raises Inconclusive via res when a lemma is not proved."""
     from . import bit as bitmod
 
+    cache = ctx.__dict__.setdefault("lemma_cache", {"range": {}, "field": {}})
     order = tm.topo(list(roots))
     isbit = lambda t: t.dt == torch.uint8 and t.op in BITOPS  # noqa
     users = {}
@@ -252,6 +254,9 @@ def unpack_lemma(ctx, roots, bits, res=None, clause="unpack(pack(code))==code"):
     for L in leaves:
         if L.op == "var":
             continue
+        if L.uid in cache["range"]:
+            ok = ok and cache["range"][L.uid]
+            continue
         floats = [t for t in tm.topo([L]) if tm.is_float(t.dt) and t.op not in ("min", "max", "const", "cast") or (t.op == "cast" and tm.is_float(t.dt) and not tm.is_float(t.args[0].dt))]
         # cut at the arguments of the clamp (maximal float subterms that are not min/max/const)
         tops = []
@@ -274,8 +279,16 @@ def unpack_lemma(ctx, roots, bits, res=None, clause="unpack(pack(code))==code"):
         v, secs, _ = solve(b.side + [z3.UGE(b.tr(Lc), 2**bits)], 60)
         if res is not None:
             res.query(clause, "BIT", v, secs, sub="range-lemma")
+        cache["range"][L.uid] = v == "unsat"
         ok = ok and v == "unsat"
     # field lemma
+    todo = [U for U in maximal if U.uid not in cache["field"]]
+    for U in maximal:
+        if U.uid in cache["field"]:
+            mapping[U.uid] = cache["field"][U.uid]
+    maximal = todo
+    if not maximal:
+        return mapping if ok else None
     cutU, cmap, back = cut(ctx, maximal, leaves, "leaf")
     b = bitmod.Bit(ctx)
     pre = [z3.ULT(b.tr(cmap[L.uid]), 2**bits) for L in leaves]
@@ -298,4 +311,43 @@ def unpack_lemma(ctx, roots, bits, res=None, clause="unpack(pack(code))==code"):
         else:
             # the leaf may itself contain earlier (inner) bit-op cones: close the mapping under itself
             mapping[U.uid] = subst(ctx, [found], mapping)[0] if mapping else found
+            cache["field"][U.uid] = mapping[U.uid]
     return mapping if ok else None
+
+
+def equal_modulo_bits(ctx, A, B, bits, res=None):
+    """are two term arrays equal for every value of the variables?  identical terms -> yes (ALG).  Otherwise sub-byte
+    payload bytes are compared as bit-vector functions of their code leaves (each leaf < 2^bits by the range lemma),
+    and float terms are compared after the unpack cut lemmas.  Returns True / False / None (not decided)."""
+    from . import bit as bitmod
+
+    A = list(np.asarray(A, dtype=object).reshape(-1))
+    B = list(np.asarray(B, dtype=object).reshape(-1))
+    if len(A) != len(B):
+        return False
+    if all(x is y for x, y in zip(A, B)):
+        return True
+    if bits is None:
+        return False
+    if all(x.dt == torch.uint8 for x in A + B):
+        isbit = lambda t: t.dt == torch.uint8 and t.op in BITOPS  # noqa
+        leaves = {}
+        for t in tm.topo(A + B):
+            if t.dt == torch.uint8 and not isbit(t) and t.op != "const":
+                leaves[t.uid] = t
+        leaves = list(leaves.values())
+        outs, cmap, _ = cut(ctx, A + B, leaves, "pl")
+        b = bitmod.Bit(ctx)
+        pre = [z3.ULT(b.tr(cmap[L.uid]), 2**bits) for L in leaves]
+        neq = [b.tr(x) != b.tr(y) for x, y in zip(outs[: len(A)], outs[len(A) :]) if x is not y]
+        if not neq:
+            return True
+        v, secs, _ = solve(pre + [z3.Or(*neq)], 60)
+        if res is not None:
+            res.query("payload-bytes-equal", "BIT", v, secs, nvars=len(leaves))
+        return True if v == "unsat" else False if v == "sat" else None
+    mp = unpack_lemma(ctx, A + B, bits, None)
+    if mp is None:
+        return None
+    A2, B2 = subst(ctx, A, mp), subst(ctx, B, mp)
+    return all(x is y for x, y in zip(A2, B2))
